@@ -190,25 +190,55 @@ func c06(c *core.Ctx, r *core.Report) {
 	})
 
 	rule(r, "C06.R3", "the iteration runner runs the state's teardown exactly once on every path, after the body; the state's teardown and T come from one constructor call", func() {
-		runner, _, frame := iterationRunner(c)
+		runner, bodyEv, _ := userRunner(c, "RunFn", func(t *ssa.Function) bool { return isStatsRecord(t) || isMetricsIter(t) })
 		isTd := func(call ssa.CallInstruction, _ *ssa.Function) bool {
 			fld, owner := an.TerminalField(call.Common().Value)
 			return an.Callee(call) == nil && fld != nil && an.IsNamed(owner, workersPkg, "iterationState") && fld.Name() != "t"
 		}
-		exits := an.PathCount(runner, an.CallWeight(isTd, 0))
-		tot, ok := an.Total(exits, false)
-		r.Check(ok && tot.Lo == 1 && tot.Hi == 1, core.FuncName(runner)+"#iteration-teardown", c.Pos(runner.Pos()), "the state's teardown runs exactly once on every path", "the iteration's cleanups run "+tot.String()+" times per iteration")
-		for _, call := range an.AllCalls(runner) {
-			if !isTd(call, nil) {
-				continue
+		// seen through function literals invoked in place and helpers: the teardown may be deferred in the frame
+		// that runs the body
+		tds := an.FlatCalls(runner, flatDepth, isTd)
+		once := func(in ssa.Instruction) bool {
+			if _, isDefer := in.(*ssa.Defer); isDefer {
+				return !an.InLoop(in) && dominatesAllReturns(in, in.Parent())
 			}
-			stateOK := stripCaret(an.D().Of(call.Common().Value)) == stripCaret(an.D().Of(frameStateArg(runner)))+"."+teardownFieldName(call)
+			tot, ok := an.Total(an.PathCount(in.Parent(), func(x ssa.Instruction) an.Interval {
+				if x == in {
+					return an.Interval{Lo: 1, Hi: 1}
+				}
+				return an.Interval{}
+			}), false)
+			return ok && tot.Lo == 1 && tot.Hi == 1
+		}
+		okOnce := len(tds) == 1
+		why := sprintf("%d teardown calls per iteration", len(tds))
+		if okOnce {
+			for _, in := range an.Chain(tds[0]) {
+				if !once(in) {
+					okOnce = false
+					why = "the teardown call (or the frame it runs in, " + an.Pos(c, in) + ") is not executed exactly once on every path"
+				}
+			}
+		}
+		r.Check(okOnce, core.FuncName(runner)+"#iteration-teardown", c.Pos(runner.Pos()), "the state's teardown runs exactly once on every path", "the iteration's cleanups do not run exactly once per iteration: "+why)
+		for _, e := range tds {
+			call := e.Call()
+			stateOK := false
+			var fx ssa.Value
+			switch x := call.Common().Value.(type) {
+			case *ssa.UnOp:
+				if fa, ok := x.X.(*ssa.FieldAddr); ok {
+					fx = fa.X
+				}
+			case *ssa.Field:
+				fx = x.X
+			}
+			if fx != nil {
+				base := an.EventFV(e, fx).Resolve(nil)
+				stateOK = an.Strip(base.V) == an.Strip(frameStateArg(runner))
+			}
 			r.Check(stateOK, core.FuncName(runner)+"#teardown-state", an.Pos(c, call), "teardown of the state handed to this call", "teardown invoked is "+an.D().Of(call.Common().Value)+", not the one of the runner's state parameter")
-			if _, isDefer := call.(*ssa.Defer); !isDefer {
-				r.Check(an.Dominates(frame, call), core.FuncName(runner)+"#teardown-after-body", an.Pos(c, call), "inline teardown after the body", "the iteration's cleanups run before its body")
-			} else {
-				r.OK(core.FuncName(runner)+"#teardown-after-body", an.Pos(c, call), "deferred: runs when the runner returns, after the recovered body")
-			}
+			r.Check(an.Before(bodyEv, e), core.FuncName(runner)+"#teardown-after-body", an.Pos(c, call), "the teardown runs after the (recovered) body", "the iteration's cleanups run before its body")
 		}
 	})
 
